@@ -111,6 +111,57 @@ static void mul_rows(Ctx const& cx, i64 a0, i64 a1, bool full)
     ev.classify(std::string("mul:") + CM<T>::name(), n);
 }
 
+// 32-bit channels: the pair space is 2^64, so a stratified operand set (range ends, powers of two and their neighbours, byte and
+// word boundaries, seeded random values) is crossed with itself; every pair gets the bound / commutativity check, every row the laws
+template <class T>
+static void mul_strat32(Ctx const& cx, std::uint64_t seed)
+{
+    verif::Evidence& ev = *cx.ev;
+    i64 lo = CM<T>::lo(), hi = CM<T>::hi();
+    std::vector<i64> v;
+    auto add = [&](i64 x) { for (i64 d = -2; d <= 2; ++d) if (x + d >= lo && x + d <= hi) v.push_back(x + d); };
+    add(lo); add(hi); add(lo + (hi - lo) / 2); add(0); add(lo + (hi - lo) / 3); add(lo + (hi - lo) / 255); add(lo + (hi - lo) / 65535);
+    for (int k = 1; k < 32; ++k) { add(lo + (1LL << k)); add(hi - (1LL << k)); }
+    verif::SplitMix r(seed ^ 0x3232);
+    std::size_t nrand = cx.thorough ? 1500 : 250;
+    for (std::size_t i = 0; i < nrand; ++i) v.push_back(lo + static_cast<i64>(r.next() & 0xffffffffULL));
+    std::sort(v.begin(), v.end());
+    v.erase(std::unique(v.begin(), v.end()), v.end());
+    std::uint64_t n = 0, nt = 0;
+    Case cur;
+    cur["@mul"];
+    cur.set("m", CM<T>::id);
+    try
+    {
+        for (i64 a : v)
+        {
+            i64 prev = lo - 1;
+            for (i64 b : v)
+            {
+                cur.set("ab", {a, b});
+                i64 res = check_pair<T>(a, b);
+                VCHECK(res >= prev, CM<T>::name(), "channel_multiply not monotone in the second argument", a, b, res, prev);
+                prev = res;
+                ++n;
+                if (a > lo && a < hi && b > lo && b < hi) ++nt;
+            }
+            cur.set("ab", {a, hi});
+            VCHECK(check_pair<T>(a, hi) == a, CM<T>::name(), "the channel maximum is not the identity of channel_multiply", a);
+            cur.set("ab", {hi, a});
+            VCHECK(mul<T>(hi, a) == a, CM<T>::name(), "the channel maximum is not the identity of channel_multiply (first argument)", a);
+            cur.set("ab", {a, lo});
+            VCHECK(check_pair<T>(a, lo) == lo, CM<T>::name(), "the channel minimum is not the annihilator of channel_multiply", a);
+            cur.set("ab", {lo, a});
+            VCHECK(mul<T>(lo, a) == lo, CM<T>::name(), "the channel minimum is not the annihilator of channel_multiply (first argument)", a);
+            n += 4;
+        }
+    }
+    catch (verif::Fail const& f) { ev.fail(cur, f.what()); }
+    ev.eval(n);
+    ev.nontrivial_counter += nt;
+    ev.classify(std::string("mul:") + CM<T>::name(), n);
+}
+
 template <class T>
 static void inv_all(Ctx const& cx, std::uint64_t seed)
 {
@@ -281,7 +332,7 @@ void verif_run(verif::Args const& a, verif::Evidence& ev)
     bool th = a.thorough() && VERIF_STRIDE == 1;
     ev.rule = std::string("channel_multiply: all pairs (a,b) of u8, s8 and packed 1..12-bit channels; u16, s16, packed 16: ") +
               (th ? "all 2^32 pairs" : "all a x lattice b = (a mod 97)+97k plus the columns min, min+1, max-1, max") +
-              "; f32: grid of k/255, k/65535 (+-1 ulp) and seeded random values, all pairs. channel_invert: every value of u8,s8,u16,s16,packed 1..16 (u32/s32: " +
+              "; u32/s32: stratified operand set (range ends, 2^k and range-2^k with neighbours, seeded random values) crossed with itself; f32: grid of k/255, k/65535 (+-1 ulp) and seeded random values, all pairs. channel_invert: every value of u8,s8,u16,s16,packed 1..16 (u32/s32: " +
               (th ? "every value" : "~470k stratified values") + "), f32 grid. stride " + std::to_string(VERIF_STRIDE) +
               " on b in this build. oracle: exact integers |(r-min)*R - (a-min)(b-min)| <= R, commutative, monotone, identity=max, annihilator=min, in range; invert == max-x+min and involution. "
               "non-trivial: both operands strictly interior (invert: x interior); distinct = (model,a,b), each visited once.";
@@ -307,6 +358,8 @@ void verif_run(verif::Args const& a, verif::Evidence& ev)
     add_mul(packed_channel_value<14>(), th, th ? 64 : 16);
     std::uint64_t seed = a.seed;
     jobs.push_back([&cx, seed] { inv_all<std::uint8_t>(cx, seed); inv_all<std::int8_t>(cx, seed); inv_all<std::uint16_t>(cx, seed); inv_all<std::int16_t>(cx, seed); });
+    jobs.push_back([&cx, seed] { mul_strat32<std::uint32_t>(cx, seed); });
+    jobs.push_back([&cx, seed] { mul_strat32<std::int32_t>(cx, seed); });
     jobs.push_back([&cx, seed] { inv_all<std::uint32_t>(cx, seed); });
     jobs.push_back([&cx, seed] { inv_all<std::int32_t>(cx, seed); });
     jobs.push_back([&cx, seed] {
